@@ -778,6 +778,7 @@ func main() {
 	r.Assume("one case = one controlled execution of the instrumented real code (run.BQL and everything below it) on the default schedule: scheduling points are the synchronisation operations (channel, mutex, waitgroup, select, go); the runtime's channel / WaitGroup / RWMutex semantics are its transcription of Go's (self-tests: go test ./explore)")
 	r.Assume("leak = at quiescence after the call returned some thread is parked forever; a goroutine that is still runnable when the call returns but runs to completion on its own (the lexer pushing its last tokens into the channel buffer, a worker between wg.Done() and its return) is not counted: no caller can distinguish it from one that finished just before the return, and every use of sync.WaitGroup has this window")
 	r.Assume("hang = deadlock before the call returned, or the tick / step horizon (3e6 ticks, 6e4 scheduled operations; the largest execution observed is reported as max_ticks / max_steps)")
+	r.Assume("when run.BQL returns from its parse branch it has read neither the store nor chanSize / bulkSize (Parser.Parse has no such argument): the remaining store and size variants of a text the parser rejects are the same execution and are not run (counted per space); texts the parser accepts run against all three stores")
 	r.Assume("configuration is not input: chanSize and bulkSize are quantified over the non-negative values {0,1,3} x {0,1,1000} on the corpus only; negative sizes (make(chan, 2*bulkSize) panics for bulkSize < 0) are outside the property, which quantifies over text and store content")
 	r.Assume("blank node ids (triple/node stays native: its init daemon produces random UUIDs) do not influence the schedule: the op trace of the default schedule is compared between two runs for every explored case")
 	r.Assume("the input classifier of a failing case (rejected-at-parse-with-more-than-4-tokens-left, ...) is computed by a separate controlled parse of the same text on a parser of its own that then drains the token stream and counts what the parser had not consumed")
